@@ -69,9 +69,15 @@ def features(s):
     members = {}
     f = {"signer": s.get("signer", "scripted"), "schedule_from_epoch0": False, "schedule_before_fork": False,
          "window": False, "message_with_missing_account": False, "message_with_zero_signature": False,
-         "message": False, "aggregate": False, "aggregate_after_head_change": False}
+         "message": False, "aggregate": False, "aggregate_after_head_change": False,
+         # the signer's faults, per signing step: a zero signature for one member while another member's is
+         # given (and the follow-up step of that slot is asked for); an error for the whole batch
+         "sel_zero_one_of_several": False, "sel_zero_only_fault_of_slot": False, "root_zero_one_of_several": False,
+         "cp_zero_one_of_several": False, "sel_err": False, "root_err": False, "cp_err": False,
+         "clean_slot_beside_faulty_slot": False}
     messaged_head = {}
     head = steps[0]["head"]
+    selzero, selerr, faulty, clean = {}, set(), set(), set()
     for st in steps[1:]:
         ev = st["ev"]
         if ev == "Member":
@@ -90,20 +96,54 @@ def features(s):
                 # the slot before the first slot of the period does not exist: first period of the chain
                 if max(period * epp, fork) == 0 and now // spe == 0 and w:
                     f["schedule_from_epoch0"] = True
+        elif ev == "FirePrepare":
+            zs = {x["v"] for x in st["hs"] if x.get("z")}
+            selzero[st["slot"]] = zs
+            if st.get("err"):
+                f["sel_err"] = True
+                selerr.add(st["slot"])
+            if zs or st.get("err"):
+                faulty.add(st["slot"])
         elif ev == "FireMessage":
-            healthy = [m for m in members.values() if m["acct"] and not (m["zero"] and f["signer"] == "scripted")]
-            if healthy:
+            slot = st["slot"]
+            accts = {v for v, m in members.items() if m["acct"]}
+            zv = set(st.get("zv", []))
+            healthy = accts - zv
+            if st.get("err"):
+                f["root_err"] = True
+                faulty.add(slot)
+            elif healthy:
                 f["message"] = True
-                if any(not m["acct"] for m in members.values()):
+                if len(accts) < len(members):
                     f["message_with_missing_account"] = True
-                if f["signer"] == "scripted" and any(m["acct"] and m["zero"] for m in members.values()):
-                    f["message_with_zero_signature"] = True
-            messaged_head[st["slot"]] = head
+                if zv:
+                    f["message_with_zero_signature"] = f["root_zero_one_of_several"] = True
+                    faulty.add(slot)
+                zs = selzero.get(slot, set())
+                if zs and accts - zs:
+                    f["sel_zero_one_of_several"] = True
+                    if not zv:
+                        f["sel_zero_only_fault_of_slot"] = True
+                if slot not in faulty:
+                    clean.add(slot)
+            messaged_head[slot] = head
         elif ev == "FireAggregate":
             f["aggregate"] = True
             if messaged_head.get(st["slot"]) not in (None, head):
                 f["aggregate_after_head_change"] = True
+            if st.get("err"):
+                f["cp_err"] = True
+            elif st.get("zp"):
+                f["cp_zero_one_of_several"] = True
+    f["clean_slot_beside_faulty_slot"] = bool(clean) and bool(faulty)
     return f
+
+
+FAULT_KEYS = ("sel_zero_one_of_several", "root_zero_one_of_several", "cp_zero_one_of_several", "sel_err", "root_err", "cp_err")
+
+
+def _any_fault(h):
+    return any(st.get("err") or st.get("zv") or st.get("zp") or any(x.get("z") for x in st.get("hs", [])) for st in h)
 
 
 def sig_of(s):
@@ -120,7 +160,7 @@ def generate(tier, pool):
     """Start the three scenario generators (TLC simulation) on the thread pool."""
     quick = tier == "quick"
     return [
-        pool.submit(vf.tlc_scenarios, PID, "Scen_SyncCommittee", "Scen_SyncCommittee.cfg", num=260 if quick else 2000,
+        pool.submit(vf.tlc_scenarios, PID, "Scen_SyncCommittee", "Scen_SyncCommittee.cfg", num=900 if quick else 6000,
                     depth=12, name="scen-mess"),
         pool.submit(vf.tlc_scenarios, PID, "Scen_SyncCommittee", "Scen_SyncCommittee_window.cfg", num=60 if quick else 1200,
                     depth=8, name="scen-window", aseed=vf.seed() + 1000),
@@ -169,55 +209,99 @@ def scenarios(tier, futures=None):
         take(h, cap_w)
     for h in picked:
         add(h, "scripted")
-    # messenger scenarios: every third one that has no zero-signature member runs on the real signer
-    # (the real signer cannot be made to return a zero signature); force the fault classes in
+    # messenger scenarios: force the fault classes in (a zero signature for one of several members at each
+    # of the three signing steps, an error for each kind of batch, a clean slot beside a faulty one, a
+    # missing account, a head change before the aggregation), then fill up.  Every third one (and more of
+    # those with a missing account) runs on the real signer, whose answers get the same faults applied.
     picked, seen = [], set()
-    for key in ("message_with_missing_account", "message_with_zero_signature", "aggregate_after_head_change"):
+    feats = [(h, features({"steps": h, "signer": "scripted"})) for h in mess]
+    for key, n_q, n_t in (("sel_zero_only_fault_of_slot", 30, 400), ("sel_zero_one_of_several", 20, 300),
+                          ("root_zero_one_of_several", 20, 300), ("cp_zero_one_of_several", 20, 300),
+                          ("sel_err", 10, 150), ("root_err", 10, 150), ("cp_err", 10, 150),
+                          ("clean_slot_beside_faulty_slot", 20, 300), ("message_with_missing_account", 20, 300),
+                          ("aggregate_after_head_change", 20, 300)):
         n = 0
-        for h in mess:
-            if features({"steps": h, "signer": "scripted"})[key]:
+        for h, f in feats:
+            if f[key]:
                 take(h, cap_m)
                 n += 1
-                if n >= (25 if quick else 400):
+                if n >= (n_q if quick else n_t):
                     break
+    # histories without any signer fault keep their share (the rule, the roots, the window)
+    n = 0
+    for h, f in feats:
+        if not any(f[k] for k in FAULT_KEYS) and not _any_fault(h):
+            take(h, cap_m)
+            n += 1
+            if n >= (60 if quick else 1000):
+                break
     for h in mess:
         take(h, cap_m)
     k = 0
     for h in picked:
-        zero = any(st["ev"] == "Member" and st["acct"] and st["zero"] for st in h)
         missing = any(st["ev"] == "Member" and not st["acct"] for st in h)
-        signer = "scripted"
-        if not zero:
-            k += 1
-            if k % 3 == 0 or (missing and k % 3 == 1):
-                signer = "real"
-        add(h, signer)
+        k += 1
+        add(h, "real" if (k % 3 == 0 or (missing and k % 3 == 1)) else "scripted")
     return out
+
+
+def _mc_lane(cfgs):
+    return [vf.tlc_exhaustive(PID, "SyncCommittee", cfg, workers=4) for cfg in cfgs]
+
+
+# control designs (constant Deviation of SyncCommittee.tla): one zero signature at one signing step takes
+# the whole slot / everybody's messages / everybody's contributions with it, or is remembered for later slots
+CONTROLS = (("MC_SyncCommittee_dev_sel.cfg", "a zero selection signature leaves the slot without its message job"),
+            ("MC_SyncCommittee_dev_root.cfg", "a zero root signature suppresses everybody's message"),
+            ("MC_SyncCommittee_dev_cp.cfg", "a zero contribution-and-proof signature suppresses every contribution"),
+            ("MC_SyncCommittee_dev_sticks.cfg", "a member whose selection signature failed once is left out of later slots"))
+
+
+def selfcheck():
+    """Vacuity self-check: the model must be able to SEE the class (broken run otherwise, never a verdict)."""
+    for cfg, what in CONTROLS:
+        r = vf.tlc(PID, "self-" + cfg.replace(".cfg", ""), "SyncCommittee", cfg, workers=2, timeout=600)
+        if r["timed_out"] or r["kind"] != "invariant" or r["violated"] != "MembersIndependent":
+            raise vf.Broken("model self-check failed: %s (%s) does not violate MembersIndependent (%s %s)\n%s" % (
+                cfg, what, r["kind"], r["violated"], r["out"][-1500:]))
+        vf.log("model self-check: %s - MembersIndependent violated, as it must be (%d distinct states)" % (what, r["distinct"]))
+    # ... and the same design passes while the alphabet has no zero SELECTION signature: why it went unseen before
+    r = vf.tlc(PID, "self-blind", "SyncCommittee", "MC_SyncCommittee_dev_sel_blind.cfg", workers=2, timeout=600)
+    if not r["ok"]:
+        raise vf.Broken("model self-check failed: MC_SyncCommittee_dev_sel_blind.cfg should pass (%s %s)" % (r["kind"], r["violated"]))
+    vf.log("model self-check: the same design passes when the alphabet lacks the zero selection signature (%d distinct states)" % r["distinct"])
 
 
 def run(tier):
     v = vf.Verdict(PID, tier)
     v.assumptions = [
         "sync committee duties, accounts, head root, contributions, clock and scheduler are scripted fakes at the "
-        "services' interfaces; the beacon node and the submitters do not fail; the signer fails only per member "
-        "(missing account, zero signature), never for a whole batch",
+        "services' interfaces; the beacon node and the submitters do not fail; the signer's faults are chosen anew "
+        "at each signing step (selection proofs, roots, contribution-and-proofs) of every slot: the zero signature "
+        "in the position of any subset of the members, or an error for the whole batch (after which the "
+        "specification leaves the rest of that slot open)",
         "the selection scalar (little-endian uint64 of SHA-256(selection signature)[0:8]) is computed in Go from the "
         "signatures the signer returned and logged modulo 840; every modulus of the scenarios divides 840",
         "SLOTS_PER_EPOCH = 2 and EPOCHS_PER_SYNC_COMMITTEE_PERIOD = 2 in the conformance runs; a prepare job runs once (C02/C03)",
-        "every third messenger scenario without a zero-signature member runs on the real signer/standard over in-memory "
-        "wallet accounts (signatures verified with BLS), the others on a scripted signer",
+        "every third messenger scenario runs on the real signer/standard over in-memory wallet accounts (signatures "
+        "verified with BLS; faults applied to its answers the way a multi-signer leaves a zero signature for an "
+        "account that did not sign), the others on a scripted signer",
     ]
     # the exhaustive runs and the scenario generators are independent TLC processes: run them side by side
     ah = agg.start(PID, "B", tier)
     with concurrent.futures.ThreadPoolExecutor(max_workers=5) as pool:
         gens = generate(tier, pool)
         mcs = [pool.submit(vf.tlc_exhaustive, PID, "SyncCommittee", "MC_SyncCommittee.cfg", workers=4),
-               pool.submit(vf.tlc_exhaustive, PID, "SyncCommittee", "MC_SyncCommittee_window.cfg", workers=4)]
-        for f in mcs:
-            v.add_mc(f.result())
+               pool.submit(_mc_lane, ["MC_SyncCommittee_window.cfg", "MC_SyncCommittee_two.cfg", "MC_SyncCommittee_err.cfg", "MC_SyncCommittee_roots.cfg"])]
+        self_f = pool.submit(selfcheck)
+        v.add_mc(mcs[0].result())
+        for r in mcs[1].result():
+            v.add_mc(r)
+        self_f.result()
         sc = scenarios(tier, gens)
     if tier == "thorough":
-        v.add_mc(vf.tlc_exhaustive(PID, "SyncCommittee", "MC_SyncCommittee_big.cfg", coverage=True, timeout=1200))
+        v.add_mc(vf.tlc_exhaustive(PID, "SyncCommittee", "MC_SyncCommittee_big.cfg", timeout=2400, heap="8g"))
+        v.add_mc(vf.tlc_exhaustive(PID, "SyncCommittee", "MC_SyncCommittee_two_big.cfg", timeout=1200))
         v.add_mc(vf.tlc_exhaustive(PID, "SyncCommittee", "MC_SyncCommittee_window_big.cfg", timeout=1200))
     vf.conformance(v, sc, driver, "Trace_SyncCommittee", "Trace_SyncCommittee.cfg", sig_of, nontrivial,
                    chunk=None if tier == "quick" else 1500)
@@ -228,8 +312,7 @@ def run(tier):
         random.Random(vf.seed()).shuffle(hs)
         scb = []
         for i, h in enumerate(hs[:4000]):
-            zero = any(st["ev"] == "Member" and st["acct"] and st["zero"] for st in h)
-            scb.append({"sc": 100000 + i, "signer": "real" if (not zero and i % 3 == 0) else "scripted",
+            scb.append({"sc": 100000 + i, "signer": "real" if i % 3 == 0 else "scripted",
                         "spe": 3, "epp": 3, "steps": h})
         vf.conformance(v, scb, driver, "Trace_SyncCommittee", "Trace_SyncCommittee_b.cfg", sig_of, nontrivial, chunk=1500)
     # additional conformance block: what the aggregation jobs set up above do when they run
@@ -238,7 +321,7 @@ def run(tier):
     v.coverage["rule"] = ("behaviours of SyncCommittee.tla generated by TLC simulation (seeded; a messenger-centred and a "
                           "window-centred constant set), replayed on the real controller + sync committee messenger + "
                           "aggregator (+ real signer for a third); non-trivial = a Schedule with a non-empty window or a "
-                          "message job with a healthy member; distinct by step list and signer.  Aggregation "
+                          "message job with a member that has an account and a signature; distinct by step list and signer.  Aggregation "
                           "pipeline: every one-job behaviour of Scen_Aggregation (B) enumerated by TLC plus simulated "
                           "two-job histories (quick: a seeded sample with every outcome class), replayed on the real "
                           "synccommitteeaggregator; non-trivial = a contribution was obtained")
